@@ -81,8 +81,12 @@ def ev(n, env):
         if op == "||":
             l = ev(n[2], env)
             return ev(n[3], env) if falsey(l) else l
-        l = ev(n[2], env)
-        r = ev(n[3], env)
+        if op in ("<", "<="):     # documented evaluation order: right operand first
+            r = ev(n[3], env)
+            l = ev(n[2], env)
+        else:
+            l = ev(n[2], env)
+            r = ev(n[3], env)
         v = binop(op, l, r)
         if isinstance(v, Alt):
             raise Unspecified("alt")
@@ -196,16 +200,26 @@ def run(chk):
     for _ in range(3000 if quick else 120000):
         trees.append(rand_tree(rng.randint(2, 4)))
 
+    # the same trees are also written inside other syntactic contexts (each context yields the value of the expression)
+    CONTEXTS = ["%s", "match 1 { 1 => %s, _ => 0 }", "match 2 { 1 => 0, _ => { %s } }", "if true { %s } else { 0 }",
+                "[0, %s][1]", "(fn() { %s })()", "(map {1: %s})[1]", "[%s, 0][0]", "if false { 0 } else if true { %s }"]
+    base = list(trees)
+    ctx_of = [0] * len(base)
+    n_ctx = len(base) if not quick else min(len(base), 2500)
+    for k in range(n_ctx):
+        t = base[k] if not quick else base[rng.randrange(len(base))]
+        trees.append(t)
+        ctx_of.append(1 + (k % (len(CONTEXTS) - 1)))
     cases = []
     for i, t in enumerate(trees):
         for which, text in (("m", rmin(t)), ("f", rfull(t))):
-            src = PRELUDE + "push(__o, %s);\npush(__o, c); push(__o, d);" % text
+            src = PRELUDE + "push(__o, %s);\npush(__o, c); push(__o, d);" % (CONTEXTS[ctx_of[i]] % text)
             cases.append(Case("%s%d" % (which, i), src, {"globals": "__o", "ast": 1, "steps": 20000}))
     res = core.run_cases(cases)
     differ = 0
     for i, t in enumerate(trees):
         rm, rf = res.get("m%d" % i), res.get("f%d" % i)
-        tmin, tfull = rmin(t), rfull(t)
+        tmin, tfull = CONTEXTS[ctx_of[i]] % rmin(t), CONTEXTS[ctx_of[i]] % rfull(t)
         if rm is None or rf is None:
             chk.inconc("missing result")
             continue
@@ -224,7 +238,7 @@ def run(chk):
             if n[0] == "assign":
                 return "(= %s)" % shape(n[2])
             return "(%s %s)" % (n[0], " ".join(shape(x) for x in n[1:]))
-        sh = shape(t)
+        sh = shape(t) + ("" if ctx_of[i] == 0 else " in " + CONTEXTS[ctx_of[i]].replace("%s", "_"))
         chk.observed(sh)
         if i % 997 == 0:
             chk.sample({"minimal": tmin, "full": tfull, "outcome": ocm,
